@@ -217,20 +217,11 @@ def combineSteps : List Step :=
   sipSteps ++ sipSteps ++ [xorc a A0, xorc b A1] ++ sipSteps ++ sipSteps ++
     [xor a c, xor b d, xmul c a G0, xmul d b G1] ++ sipSteps
 
-theorem sipround_eq_steps (s : St) : sipround s = runSteps sipSteps s := by
-  cases s
-  simp only [sipround, sipSteps, runSteps, Step.run, St.get, St.set]
-
 theorem runSteps_append (l r : List Step) (s : St) :
     runSteps (l ++ r) s = runSteps r (runSteps l s) := by
   induction l generalizing s with
   | nil => rfl
   | cons st l ih => simp only [List.cons_append, runSteps_cons, ih]
-
-theorem combineMix_eq_steps (s : St) : combineMix s = runSteps combineSteps s := by
-  simp only [combineSteps, runSteps_append, ← sipround_eq_steps, combineMix]
-  cases s
-  simp only [runSteps, Step.run, St.get, St.set, asym, crossMix]
 
 theorem sipSteps_ok : ∀ st ∈ sipSteps, st.Ok := by
   intro st h
